@@ -23,6 +23,7 @@ from .. import suite as S
 
 PROP = "C04"
 PROP_V = "theories/props/C04.v"
+MODEL_AREAS = ('front', 'tc', 'run', 'sax')
 
 
 def run(b, ps, tier, seed):
